@@ -57,7 +57,8 @@ def templates(draw, org, frame):
     elif kind == 'out':
         code = []
         for _ in range(draw(st.integers(1, 4))):
-            port = draw(st.sampled_from([0x00FE, 0x7FFD, 0xFFFD, 0xBFFD, 0x7FFE, 0x1FFD]))
+            # (AY ports only on 128K machines: F51)
+            port = draw(st.sampled_from([0x00FE, 0x7FFD, 0xFFFD, 0xBFFD, 0x7FFE, 0x1FFD] if frame == 70908 else [0x00FE, 0x7FFD, 0x7FFE, 0x1FFD, 0x00FF]))
             v = draw(st.sampled_from([0, 1, 5, 7, 0x10, 0x17, 0x20, 0xFF]) | st.integers(0, 255))
             code += [0x01, port & 255, port >> 8, 0x3E, v, 0xED, 0x79]
         code += draw(FILL)
@@ -121,7 +122,7 @@ def cases(draw, tier):
         else:
             splits = sorted(set(draw(st.lists(st.integers(1, N - 1), min_size=1, max_size=12 if tier == 'quick' else 60))))
     regs = draw(gen_prog.registers())
-    regs['SP'] = draw(st.sampled_from([0xFF00, 0x5C00, 0xBFFE, 0x4002]))
+    regs['SP'] = draw(st.sampled_from([0xFF00, 0x5C00, 0xBFFE, 0x4002, 0x4001, 0x4000, 0x3FFF, 0x0002, 0x0000]))      # incl. pushes into ROM and across the ROM/RAM boundary
     regs['I'] = draw(st.sampled_from([0x3F, 0x90, 0x40, 0x00]))
     return {
         'machine': machine, 'org': org, 'code': code, 'kinds': kinds,
@@ -130,6 +131,8 @@ def cases(draw, tier):
         'border': draw(st.integers(0, 7)), 'o7ffd': draw(st.sampled_from([0, 0x10, 7, 0x11])) if machine == '128K' else 0,
         'N': N, 'splits': splits, 'fmt': draw(st.sampled_from(['szx', 'z80'])), 'start_fmt': draw(st.sampled_from(['szx', 'z80'])),
         'cmio': draw(st.booleans()),
+        # an interrupt routine of several instructions, so that split points fall between acceptance and return
+        'isr': draw(st.sampled_from([None, [0x14, 0x1C, 0x04, 0xFB, 0xC9], [0xF5, 0x3C, 0xF1, 0xFB, 0xC9], [0x00, 0x00, 0xFB, 0xED, 0x4D]])),
         'python': draw(st.sampled_from([False, False, False, True])) if tier == 'quick' else draw(st.booleans()),
     }
 
@@ -145,16 +148,22 @@ def write_start(s, case):
             a = (org + k) & 0xFFFF
             if a >= 0x4000:
                 banks[(5, 2, page)[(a >> 14) - 1]][a & 0x3FFF] = b
-        # IM 2 vector table entry at 0x90FF -> org + 0x40; handler EI: RET
+        # IM 2 vector table entry at 0x90FF -> org + 0x40 (whatever lies there), or -> an explicit handler at org + 0x100
         ram = banks
-        _poke128(banks, page, 0x90FF, (org + 0x40) & 255)
-        _poke128(banks, page, 0x9100, ((org + 0x40) >> 8) & 255)
+        isr_at = (org + (0x100 if case.get('isr') else 0x40)) & 0xFFFF
+        for k, b in enumerate(case.get('isr') or ()):
+            _poke128(banks, page, (isr_at + k) & 0xFFFF, b)
+        _poke128(banks, page, 0x90FF, isr_at & 255)
+        _poke128(banks, page, 0x9100, (isr_at >> 8) & 255)
     else:
         mem = gen_prog.fill_bytes(case['fill_seed'], 0x10000, case['fill_style'])
         for k, b in enumerate(code):
             mem[(org + k) & 0xFFFF] = b
-        mem[0x90FF] = (org + 0x40) & 255
-        mem[0x9100] = ((org + 0x40) >> 8) & 255
+        isr_at = (org + (0x100 if case.get('isr') else 0x40)) & 0xFFFF
+        for k, b in enumerate(case.get('isr') or ()):
+            mem[(isr_at + k) & 0xFFFF] = b
+        mem[0x90FF] = isr_at & 255
+        mem[0x9100] = (isr_at >> 8) & 255
         ram = list(mem[0x4000:])
     registers = ['%s=%d' % (k.lower(), v) for k, v in case['regs'].items()] + ['pc=%d' % case['org']]
     state = ['im=%d' % case['im'], 'iff=%d' % case['iff'], 'tstates=%d' % case['tstates'], 'border=%d' % case['border']]
@@ -277,7 +286,16 @@ def replay(case):
     oracle(case)
 
 
+def _uses_ay_ports_on_48k(case):
+    code = bytes(case.get('code', ()))
+    return case.get('machine') == '48K' and (b'\x01\xfd\xff' in code or case.get('regs', {}).get('BC', 0) & 0xC002 == 0xC000)
+
+
 def known_class(sig, case):
+    # F51: trace.py emulates the AY register port 0xFFFD on every machine, but a 48K snapshot carries no AY state: a
+    # 48K program that selects an AY register and reads it back after the split sees a different value.
+    if sig.startswith('resume:') and isinstance(case, dict) and _uses_ay_ports_on_48k(case):
+        return 'F51'
     # F7: neither snapshot format carries the HALT flag (and from_snapshot does not restore it). With -c the
     # contended simulators put PC+1 on the bus while halted but PC when a HALT is (re-)entered, so a run
     # resumed from a snapshot taken inside a HALT wait next to a contention boundary ends a few T-states off.
